@@ -24,7 +24,7 @@ Extraction "model.ml"
   Tokenizer.tokenize Cursor.spec_tokenize
   Parser.p_policies Printer.policy_items Printer.render Printer.toks IPPrint.print_ip Quote.string_value Quote.parse_pattern
   ValueJson.encode_value ValueJson.decode_value
-  PolicyJson.enc_policy PolicyJson.dec_policy
+  PolicyJson.enc_policy PolicyJson.dec_policy PolicyJson.enc_policy_set PolicyJson.dec_policy_set
   SchemaResolve.resolve_schema SchemaResolve.is_descendant
   TypeCheck.typeof
   SchemaJson.enc_schema SchemaJson.dec_schema SchemaJson.erase
